@@ -10,7 +10,11 @@ package main
 //	recv.M(xs)            (M stores into its slice parameter, no result)   xs' := M recv xs
 //	func (r R) M(in []T) { ...in[i] = ... }           Definition M r in : list T := <final value of in>
 //
-// Everything else about slices (append, re-slicing, index arithmetic, partial loops, goroutines ...) is rejected by name.
+//	ys := make([]T, 0, n); for i := K; i < len(xs); i++ { v := xs[i-c]; ys = append(ys, E) }
+//	                                                  ys'  := map (fun i => E) (seq K (length xs - K))   (appendloop.go)
+//	f(a, xs...)  /  f(a, x1, x2)   (variadic f)       f a xs  /  f a [x1; x2]                             (appendloop.go)
+//
+// Everything else about slices (other appends, re-slicing, index arithmetic, partial loops, goroutines ...) is rejected by name.
 
 import (
 	"fmt"
@@ -196,6 +200,9 @@ func (t *fnTr) mapStore(loop ast.Node, as *ast.AssignStmt, ix *ast.IndexExpr, ov
 	inner.define(idx, &binding{name: "?", ty: tInt, loopOf: src, elem: elemName, elemTy: sb.ty.Elems[0]})
 	v, err := t.expr(as.Rhs[0], inner)
 	if err != nil {
+		return nil, err
+	}
+	if err := t.noCalleePanicsSince(0, as, "a loop body"); err != nil {
 		return nil, err
 	}
 	if !v.ty.eq(yb.ty.Elems[0]) {
